@@ -188,15 +188,18 @@ class Unary(Contract):
     merge = True
 
     # op -> (extra args, expected label transform, expected shape, value function or None)
-    def __init__(self, op, base, series, per=False):
-        self.op, self.base, self.series, self.per = op, base, series, per
+    def __init__(self, op, base, series, per=False, numpy_index=False):
+        self.op, self.base, self.series, self.per, self.numpy_index = op, base, series, per, numpy_index
         self.func = f"Food.{op}"
-        self.name = f"{op}({base}{'[]' if series else (' per month' if per else '')})"
+        self.name = f"{op}({base}{'[]' if series else (' per month' if per else '')})" + (" with a numpy integer index" if numpy_index else "")
 
     def inputs(self, S):
         conv(S)
         a, av, al = mk(S, "a", self.base, self.series, per=self.per)
         extra = {"get_month": [1], "__getitem__": [1], "get_rounded_to_decimal": [3], "shift": [1]}.get(self.op, [])
+        if self.numpy_index:
+            from pyvc.values import NpInt
+            extra = [NpInt(1)]   # e.g. food[np.argmax(...)]: an integer that is not a Python int
         return dict(args=[a] + extra, a=a, av=av, al=al)
 
     def ensures(self, S, p, res):
@@ -394,6 +397,8 @@ def _mk():
                "get_min_all_months", "get_max_all_months"):
         cs.append(Unary(op, "plain", True))
         cs.append(Unary(op, "custom", True))
+    cs.append(Unary("__getitem__", "plain", True, numpy_index=True))
+    cs.append(Unary("get_month", "plain", True, numpy_index=True))
     cs.append(MinElementwise("plain", True))
     cs.append(MinElementwise("plain", False))
     for pr in BINARY_PREDS + UNARY_PREDS:
